@@ -3,7 +3,7 @@
    not modelled; the property is decided on the implementation's own inputs, outputs and
    exposed scale by the checkers of Quant/AutoScale.v, whose soundness is stated here. *)
 From Coq Require Import ZArith List Bool.
-From QV Require Import Base.ZQ Base.FL Quant.Po2 Quant.BinTern Quant.AutoScale Quant.Shape.
+From QV Require Import Base.ZQ Base.FL Quant.Po2 Quant.BinTern Quant.AutoScale Quant.Shape Quant.Fixed.
 Open Scope Z_scope. Import ListNotations.
 
 (* a passing element is the float32 straight-through sum of (exposed scale) * (integer code), |code| <= 2^(bits-1)-1 *)
@@ -61,3 +61,35 @@ Theorem C05_unrolled_axes : forall s f a, (a < length s)%nat ->
   (forall i, (a < i)%nat -> nth (S i) (unroll_one s f a) 0 = nth i s 0).
 Proof. exact unroll_one_axes. Qed.
 Print Assumptions C05_unrolled_axes.
+
+(* ---- the source itself: quantized_linear with alpha = "auto".  The scale _get_quantization_scale_from_max_data computes
+        (coq/gen/LinGen.v, regenerated from qkeras/quantizers.py on every run) covers its whole scale group: every element is
+        coded in range and within half a quantization step of its value -- for every multi-bit format, every group maximum and
+        every element of the group. ---- *)
+From QV Require Import Link.LinLink Link.LinAutoLink.
+From QVGen Require LinGen.
+Theorem C05_source_auto_scale_covers_the_group : forall c dmax_abs dmax x,
+  ql_sign c = false -> 1 <= ql_ub c -> ql_kn c = true -> 0 < rnum dmax_abs -> 0 < rden dmax_abs -> 0 < rden x ->
+  rle (rabs x) dmax_abs = true ->
+  let s := LinGen.gen_ql_auto_scale (ql_bits c) (ql_kn c) (ql_sym c) dmax_abs dmax in
+  let p := rdiv x s in
+  0 < rnum s /\ 0 < rden s /\ 0 < rden p /\ 2 * Z.abs (rnum p) <= (ql_hi c - ql_lo c) * rden p.
+Proof. exact auto_scale_covers_the_group. Qed.
+Print Assumptions C05_source_auto_scale_covers_the_group.
+Theorem C05_source_auto_scale_code_in_range_and_within_half_a_step : forall c dmax_abs dmax x,
+  ql_sign c = false -> 1 <= ql_ub c -> ql_kn c = true -> 0 < rnum dmax_abs -> 0 < rden dmax_abs -> 0 < rden x ->
+  rle (rabs x) dmax_abs = true ->
+  let s := LinGen.gen_ql_auto_scale (ql_bits c) (ql_kn c) (ql_sym c) dmax_abs dmax in
+  let p := rdiv x s in
+  let code := rround (rclip (rofZ (ql_lo c)) (rofZ (ql_hi c)) p) in
+  ql_lo c <= code <= ql_hi c /\ 2 * Z.abs (code * rden p - rnum p) <= rden p.
+Proof. exact auto_scale_code_within_half_a_step. Qed.
+Print Assumptions C05_source_auto_scale_code_in_range_and_within_half_a_step.
+Theorem C05_source_auto_scale_unsigned_maps_the_maximum_onto_the_top_code : forall c dmax_abs dmax x,
+  ql_sign c = false -> 1 <= ql_ub c -> ql_kn c = false -> 0 < rnum dmax -> 0 < rden dmax -> 0 < rden x ->
+  rle x dmax = true ->
+  let s := LinGen.gen_ql_auto_scale (ql_bits c) (ql_kn c) (ql_sym c) dmax_abs dmax in
+  let p := rdiv x s in
+  0 < rnum s /\ 0 < rden s /\ 0 < rden p /\ rnum p <= ql_hi c * rden p.
+Proof. exact auto_scale_unsigned_covers. Qed.
+Print Assumptions C05_source_auto_scale_unsigned_maps_the_maximum_onto_the_top_code.
